@@ -1,6 +1,11 @@
 package main
 
 import (
+	"go/token"
+	"go/types"
+
+	"golang.org/x/tools/go/ssa"
+
 	"encoding/json"
 	"fmt"
 	"os"
@@ -256,6 +261,11 @@ func report(prop, tier string, seed int, out string, results []jobResult, loaded
 			"wall_s":      wall.Seconds(),
 			"violations":  nViol,
 		}
+		if prop == "C10" && len(loaded) > 0 {
+			cov, unc := exportCoverage(loaded[0], funcs)
+			ev["coverage"].(map[string]any)["exported_operations_reached"] = cov
+			ev["coverage"].(map[string]any)["exported_operations_not_reached"] = unc
+		}
 		b, _ := json.MarshalIndent(ev, "", " ")
 		os.MkdirAll(filepath.Dir(out), 0o755)
 		os.WriteFile(out, b, 0o644)
@@ -268,4 +278,49 @@ func firstAny(xs []map[string]any, n int) []map[string]any {
 		return xs[:n]
 	}
 	return xs
+}
+
+// exportCoverage lists the exported functions and methods of package otp (discovered from the
+// SSA program on every run) that were / were not executed by the harnesses of this run.
+func exportCoverage(l *Loaded, funcs map[string]int) (covered, uncovered []string) {
+	for _, sp := range l.spkgs {
+		if sp == nil || sp.Pkg.Path() != "github.com/ja7ad/otp" {
+			continue
+		}
+		var names []string
+		for name, m := range sp.Members {
+			switch x := m.(type) {
+			case *ssa.Function:
+				if token.IsExported(name) {
+					names = append(names, x.String())
+				}
+			case *ssa.Type:
+				if !token.IsExported(name) {
+					continue
+				}
+				for _, t := range []types.Type{x.Type(), types.NewPointer(x.Type())} {
+					ms := l.prog.MethodSets.MethodSet(t)
+					for i := 0; i < ms.Len(); i++ {
+						if fn := l.prog.MethodValue(ms.At(i)); fn != nil && token.IsExported(fn.Name()) && fn.Synthetic == "" {
+							names = append(names, fn.String())
+						}
+					}
+				}
+			}
+		}
+		sort.Strings(names)
+		seen := map[string]bool{}
+		for _, n := range names {
+			if seen[n] {
+				continue
+			}
+			seen[n] = true
+			if _, ok := funcs[n]; ok {
+				covered = append(covered, n)
+			} else {
+				uncovered = append(uncovered, n)
+			}
+		}
+	}
+	return
 }
